@@ -280,7 +280,19 @@ def closure_rule(ctx, rep, rid):
                     and c.func.attr in ('update', 'add', '__ior__')
                     and isinstance(c.func.value, ast.Name)
                     and c.args
-                    and _mentions_get(c.args[0], 'parents')
+                    and (
+                        _mentions_get(c.args[0], 'parents')
+                        or (
+                            # hoisted into a local first: more = <...>.get('parents')
+                            isinstance(c.args[0], ast.Name)
+                            and any(
+                                isinstance(s, ast.Assign)
+                                and any(isinstance(t, ast.Name) and t.id == c.args[0].id for t in s.targets)
+                                and _mentions_get(s.value, 'parents')
+                                for s in ast.walk(w)
+                            )
+                        )
+                    )
                 ]
                 gupd = [c for c in upd if c.func.value.id == g]
                 acc = [c for c in upd if c.func.value.id not in (g, v)]
